@@ -112,6 +112,80 @@ def apply(tree, kind, target):
     return T().visit(tree)
 
 
+def _simple(st):
+    return isinstance(st, (ast.Expr, ast.Assign, ast.AugAssign)) and not is_logging_call(st) and not (isinstance(st, ast.Expr) and isinstance(st.value, ast.Constant)) \
+        and not (isinstance(st, ast.Assign) and any(isinstance(t, ast.Name) and ("msg" in t.id or "string" in t.id) for t in st.targets))
+
+
+def gen_moves():
+    """block-level mutants: swap two adjacent simple statements; move the last statement of a with / try body out behind the
+    block; move the first statement of a try body in front of the try; move the statement following a with/try into its body"""
+    os.makedirs(OUT, exist_ok=True)
+    src = open(SRC).read()
+    n = max([int(os.path.basename(f)[:5]) for f in glob.glob(f"{OUT}/*.json")] + [0])
+
+    def blocks(tree):
+        out = []
+        fn = []
+
+        def walk(node, fname):
+            for fld in ("body", "orelse", "finalbody"):
+                b = getattr(node, fld, None)
+                if isinstance(b, list) and b and isinstance(b[0], ast.stmt):
+                    out.append((node, fld, fname))
+                    for st in b:
+                        walk(st, st.name if isinstance(st, (ast.FunctionDef, ast.ClassDef)) and isinstance(st, ast.FunctionDef) else fname)
+            for h in getattr(node, "handlers", []) or []:
+                out.append((h, "body", fname))
+                for st in h.body:
+                    walk(st, fname)
+        walk(tree, "<module>")
+        return out
+
+    base_blocks = blocks(ast.parse(src))
+    todo = []
+    for bi, (node, fld, fname) in enumerate(base_blocks):
+        b = getattr(node, fld)
+        for i in range(len(b) - 1):
+            if _simple(b[i]) and _simple(b[i + 1]):
+                todo.append((bi, "swapadj", i))
+        for i, st in enumerate(b):
+            if isinstance(st, (ast.With, ast.Try)) and len(st.body) > 1 and _simple(st.body[-1]):
+                todo.append((bi, "moveout", i))
+            if isinstance(st, ast.Try) and len(st.body) > 1 and _simple(st.body[0]):
+                todo.append((bi, "movebefore", i))
+            if isinstance(st, (ast.With, ast.Try)) and i + 1 < len(b) and _simple(b[i + 1]):
+                todo.append((bi, "movein", i))
+    made = 0
+    for bi, kind, i in todo:
+        tree = ast.parse(src)
+        node, fld, fname = blocks(tree)[bi]
+        b = getattr(node, fld)
+        before = ast.unparse(b[i])[:120]
+        line = b[i].lineno
+        if kind == "swapadj":
+            b[i], b[i + 1] = b[i + 1], b[i]
+        elif kind == "moveout":
+            st = b[i].body.pop()
+            b.insert(i + 1, st)
+        elif kind == "movebefore":
+            st = b[i].body.pop(0)
+            b.insert(i, st)
+        elif kind == "movein":
+            st = b.pop(i + 1)
+            b[i].body.append(st)
+        try:
+            ast.fix_missing_locations(tree)
+            text = ast.unparse(tree) + "\n"
+            compile(text, "m.py", "exec")
+        except Exception:  # noqa: BLE001
+            continue
+        n += 1
+        made += 1
+        json.dump({"id": n, "kind": kind, "func": fname, "line": line, "before": before, "text": text}, open(f"{OUT}/{n:05d}.json", "w"))
+    print("move mutants:", made)
+
+
 def gen():
     shutil.rmtree(OUT, ignore_errors=True)
     os.makedirs(OUT)
@@ -178,15 +252,17 @@ def main():
     jobs = int(sys.argv[sys.argv.index("-j") + 1]) if "-j" in sys.argv else 16
     if cmd == "gen":
         gen()
+    elif cmd == "genmoves":
+        gen_moves()
     elif cmd == "test":
-        files = sorted(glob.glob(f"{OUT}/*.json"))
+        files = [f for f in sorted(glob.glob(f"{OUT}/*.json")) if "survives" not in json.load(open(f))]
         with mp.get_context("fork").Pool(jobs) as pool:
             res = pool.map(run_tests, files, chunksize=4)
         print("survivors:", sum(res), "of", len(res))
         for d in glob.glob("/tmp/mut_*"):
             shutil.rmtree(d, ignore_errors=True)
     elif cmd == "check":
-        files = [f for f in sorted(glob.glob(f"{OUT}/*.json")) if json.load(open(f)).get("survives")]
+        files = [f for f in sorted(glob.glob(f"{OUT}/*.json")) if json.load(open(f)).get("survives") and ("--new" not in sys.argv or "checks" not in json.load(open(f)))]
         with mp.get_context("fork").Pool(jobs) as pool:
             res = pool.map(check_one, files, chunksize=1)
         print("survivors:", len(res), "reported:", sum(1 for v, e in res if v), "analysis-error only:", sum(1 for v, e in res if e and not v))
